@@ -373,7 +373,7 @@ class Gen:
         if r.random() < 0.5:
             dflt.append(r.choice(['c_std=c99', 'warning_level=0', 'optimization=1', 'default_library=static', 'b_ndebug=true']))
             self.features.add('opt:sp-project-default_options')
-        L = [f"project('sp', 'c', version: '0.{r.randint(1, 9)}', meson_version: '>=1.3.0'" +
+        L = [f"project('sp', 'c', version: '0.{r.randint(1, 9)}', meson_version: '>=1.10.0'" +
              (f", default_options: {mlist([mstr(d) for d in dflt])}" if dflt else '') + ')']
         builtin = r.sample(BUILTIN_PRINTED, 18) + ['warning_level', 'default_library', 'optimization', 'c_std', 'werror',
                                                     'b_ndebug', 'c_args', 'debug', 'unity', 'strip', 'buildtype']
@@ -458,7 +458,7 @@ class Gen:
             if ',' not in v and "'" not in v:
                 dflt.append(f'sp:{o.name}={v}')
                 self.features.add('opt:top-default_options-for-sp-project-option')
-        L = ["project('c15 top', 'c', version: '1.2', meson_version: '>=1.3.0'" +
+        L = ["project('c15 top', 'c', version: '1.2', meson_version: '>=1.10.0'" +
              (f", default_options: {mlist([mstr(d) for d in dflt])}" if dflt else '') + ')']
         L += print_opts('top', top_opts, BUILTIN_PRINTED)
         self.printed['top'] = [o.name for o in top_opts] + list(BUILTIN_PRINTED)
@@ -612,6 +612,14 @@ class Gen:
             self.must_read.append('app/deep/meson.build')
             exes.append('deep_exe')
             self.features.add('depth2-subdir')
+        r3 = random.Random(f'c15-bsd:{self.seed}')
+        self.bsd = r3.random() < 0.65
+        BA: T.List[str] = []        # build_subdir additions, emitted at the end (not under --layout=flat, see probe flat-build-subdir)
+        BL: T.List[str] = []
+        if self.bsd and r3.random() < 0.7:
+            inst = r3.choice(['', ', install: true', ", install: true, install_dir: 'bsd/bin'"])
+            BA.append(f"bsd_app = executable('c15bsdapp', 'bsd_app.c', build_subdir: {mstr(r3.choice(['out/bin', 'stage', 'o']))}{inst})")
+            BA.append('#feature build_subdir:executable-in-subdir' + (':installed' if inst else ''))
         self.files['app/meson.build'] = '\n'.join(AL) + '\n'
         self.must_read.append('app/meson.build')
         L.append("subdir('app')")
@@ -712,6 +720,21 @@ class Gen:
         if r.random() < 0.3:
             L.append("install_emptydir('var/c15empty'" + r.choice(['', ", install_tag: 'datatag'"]) + ')')
             self.features.add('install_emptydir')
+        if self.bsd:
+            # targets placed below the directory of their meson.build with build_subdir: (new in 1.10)
+            inst = r3.choice(['', ', install: true', ", install: true, install_tag: 'bsdtag'"])
+            BL.append(f"bsd_exe = executable('c15bsdexe', 'bsd_main.c', build_subdir: 'stage/bin'{inst})")
+            BL.append('#feature build_subdir:executable' + (':installed' if inst else ''))
+            kind = r3.choice(['static_library', 'shared_library', 'both_libraries'])
+            inst = r3.choice(['', ', install: true'])
+            BL.append(f"bsd_lib = {kind}('c15bsdlib', 'bsd_lib.c', build_subdir: 'stage/lib'{inst})")
+            BL.append(f'#feature build_subdir:{kind}' + (':installed' if inst else ''))
+            inst = r3.choice(['', ", install: true, install_dir: 'share/bsd'", ", install: true, install_dir: 'share/bsd', install_tag: 'bsdtag'"])
+            BL.append("bsd_ct = custom_target('bsdct', output: ['bsd.txt', 'bsd2.txt'], command: [py, gen_tool, 'bsd', '@OUTPUT@'], "
+                      f"build_subdir: 'stage/gen', build_by_default: true{inst})")
+            BL.append('#feature build_subdir:custom_target' + (':installed' if inst else ''))
+            BL.append("bsd_dumper = executable('bsddumper', 'tools/dumper.c', build_subdir: 'stage/t')")
+            BL.append('#feature build_subdir:test-exe-and-args')
         self.files['meson.build'] = '\n'.join(L) + '\n'
         # ---- command line
         a: T.List[str] = []
@@ -736,6 +759,19 @@ class Gen:
             a.append('--layout=flat')
             self.features.add('layout:flat')
         self.setup_args = a
+        if self.bsd and '--layout=flat' not in a:
+            for lines, path in ((BA, 'app/meson.build'), (BL, 'meson.build')):
+                for ln in lines:
+                    if ln.startswith('#feature '):
+                        self.features.add(ln[9:])
+                    else:
+                        self.files[path] += ln + '\n'
+            self.files['app/bsd_app.c'] = 'int main(void) { return 0; }\n'
+            self.files['bsd_main.c'] = 'int main(void) { return 0; }\n'
+            self.files['bsd_lib.c'] = 'int bsd_lib_fn(void) { return 5; }\n'
+            tid = self.uniq('T')
+            self.files['meson.build'] += f"test({mstr('bsd' + tid)}, bsd_dumper, args: ['ID:{tid}', bsd_exe, bsd_ct, bsd_lib], depends: [bsd_ct])\n"
+            self.dumper_tests[tid] = {'name': 'bsd' + tid, 'bench': False, 'exe': 'c', 'project': 'top'}
         # ---- later invocations on the same build directory (own RNG: the project itself does not depend on it)
         r2 = random.Random(f'c15-life:{self.seed}')
         cur = {x[2:].split('=', 1)[0]: x.split('=', 1)[1] for x in a if x.startswith('-D')}
